@@ -85,6 +85,8 @@ func (t *tbl) Call(ip *absint.Interp, site ssa.CallInstruction, args []absint.Va
 			}
 		}
 		return t.newErr(cal.Name()), true
+	case strings.HasPrefix(full, "(*sync.WaitGroup).") || strings.HasPrefix(full, "(*sync.Mutex).") || strings.HasPrefix(full, "(*sync.RWMutex)."):
+		return nil, true // synchronisation has no effect on a sequential schedule
 	case full == "fmt.Sprintf" || full == "fmt.Sprint":
 		return &absint.Opaque{Why: "text"}, true
 	case full == "sort.Slice" || full == "sort.SliceStable":
